@@ -153,6 +153,21 @@ def mutate_xml(xml, mut, r):
                 return None, "empty-attr"
             e.set(k, _alter_char(v, r.randrange(len(v)), r))
             desc = "attr:%s:%s@%s" % (mut.get("target"), e.tag.rsplit("}", 1)[-1], k)
+    elif where == "required-attr":
+        # a schema-required attribute of the message element itself left empty or out
+        if target.tag == wire.q(wire.SOAPENV, "Envelope"):
+            body = target.find(wire.q(wire.SOAPENV, "Body"))
+            if body is None or len(body) != 1:
+                return None, "no-target"
+            target = body[0]
+        k = mut.get("attr") or r.pick(["ID", "ID", "Version", "IssueInstant"])
+        if k not in target.attrib:
+            return None, "no-attr"
+        if mut.get("mode", "empty") == "empty":
+            target.set(k, "")
+        else:
+            del target.attrib[k]
+        desc = "required-attr:%s:%s" % (k, mut.get("mode", "empty"))
     elif where == "outside":
         # content of the response that is NOT inside `target` (the signed assertion)
         inside = set(target.iter())
@@ -779,6 +794,10 @@ class FedSim(object):
                         kw["encrypt_cert_assertion"] = fed.cert_pem(p["enc_cert"])     # supplied with the request
                     if p.get("pefim"):
                         kw["pefim"] = True
+                    if p.get("enc_cert_advice") is not None:
+                        # PEFIM: the certificate of the SP behind the proxy came with the request; the attribute
+                        # assertion in the Advice is for that key and for nobody else
+                        kw["encrypt_cert_advice"] = fed.cert_pem(p["enc_cert_advice"])
                     if p.get("advice"):
                         kw["encrypted_advice_attributes"] = True
                     resp = srv.create_authn_response(
@@ -869,6 +888,9 @@ class FedSim(object):
             scd.in_response_to = d["scd_irt"]
         if "recipient" in d:
             scd.recipient = d["recipient"]
+        if d.get("first_sc_nodata"):
+            # a confirmation that carries no SubjectConfirmationData in front of the real one (schema-legal)
+            scs.insert(0, saml.SubjectConfirmation(method=saml.SCM_BEARER))
         if d.get("second_sc"):
             s2 = d["second_sc"]
             data = saml.SubjectConfirmationData(
@@ -905,13 +927,27 @@ class FedSim(object):
                                                  encrypt_assertion=False, release_policy=pol, **dict(ra, **kw))
             adv = adv_resp.assertion[0] if isinstance(adv_resp.assertion, list) else adv_resp.assertion
             a.attribute_statement = []
-            adv.signature = pre_signature_part(adv.id, sec.my_cert, 1, sign_alg=p.get("sigalg"),
+            adv_cert, adv_key_file = sec.my_cert, None
+            if d.get("advice_issuer"):
+                # an attribute assertion of ANOTHER federation member carried along (proxying): it names that
+                # member as its Issuer and is signed either with that member's key (genuine) or with the
+                # carrier's own key (a carrier vouching under somebody else's name)
+                other = self.truth[d["advice_issuer"]]
+                adv.issuer.text = fed.idp_entity(other["name"])
+                if d.get("advice_key", "issuer") == "issuer":
+                    adv_key_file = key_file(other["key"])
+                    adv_cert = cert_b64(other["key"])
+                self.count("dialect.advice-of-other-issuer." + d.get("advice_key", "issuer"))
+            adv.signature = pre_signature_part(adv.id, adv_cert, 1, sign_alg=p.get("sigalg"),
                                                digest_alg=p.get("digalg"))
             a.advice = Advice()
             holder = EncryptedAssertion()
             holder.add_extension_element(adv)
             a.advice.encrypted_assertion = [holder]
-            doc = signed_instance_factory("%s" % resp, sec, [(class_name(adv), adv.id)])
+            if adv_key_file:
+                doc = sec.sign_statement("%s" % resp, node_name=class_name(adv), key_file=adv_key_file, node_id=adv.id)
+            else:
+                doc = signed_instance_factory("%s" % resp, sec, [(class_name(adv), adv.id)])
             xp = "".join("/*[local-name()=\"%s\"]" % v for v in
                          ["Response", "Assertion", "Advice", "EncryptedAssertion", "Assertion"])
             doc = srv._encrypt_assertion(None, ra["sp_entity_id"], doc, node_xpath=xp)
@@ -931,6 +967,26 @@ class FedSim(object):
             if sign_a:
                 doc = signed_instance_factory(doc, sec, [(class_name(a), a.id)])
             doc = srv._encrypt_assertion(None, ra["sp_entity_id"], doc)
+            pn = d.get("plain_next_to_encrypted")
+            if pn is not None:
+                # one more assertion, not encrypted, in the same Response (e.g. an authentication statement in
+                # the open next to confidential attributes): every signature rule applies to it as well
+                from saml2_tophat.samlp import response_from_string
+                other = srv.create_authn_response({"displayName": ["plain-%s" % resp.id[-6:]]}, authn=authn,
+                                                  sign_response=False, sign_assertion=False, encrypt_assertion=False,
+                                                  release_policy=pol, **dict(ra, **kw))
+                a2 = other.assertion[0] if isinstance(other.assertion, list) else other.assertion
+                robj = response_from_string(doc)
+                to_sign = []
+                if pn.get("signed"):
+                    a2.signature = pre_signature_part(a2.id, sec.my_cert, 2, sign_alg=p.get("sigalg"),
+                                                      digest_alg=p.get("digalg"))
+                    to_sign.append((class_name(a2), a2.id))
+                robj.assertion = [a2]
+                if sign_r:
+                    to_sign.append((class_name(robj), robj.id))
+                self.count("dialect.plain-next-to-encrypted")
+                return signed_instance_factory(robj, sec, to_sign) if to_sign else robj
             if sign_r:
                 doc = signed_instance_factory(doc, sec, [(class_name(resp), resp.id)])
             return doc
@@ -967,12 +1023,15 @@ class FedSim(object):
         reads it back (and before --encrypt sees it)."""
         tool = self.world.tool
         r = mkrng(sub, "handover")
-        state = {"done": False}
+        state = {"done": False, "skip": int(h.get("skip", 0))}
 
         def post(inv, res):
             if state["done"] or inv["op"] != "sign" or not isinstance(res.output, bytes) or not res.output:
                 return
             if inv.get("node_name") != (RESP_NODE if h.get("target") == "response" else ASSERT_NODE):
+                return
+            if state["skip"] > 0:
+                state["skip"] -= 1      # not this one: a later signing run of the same kind
                 return
             new, desc = mutate_xml(res.output, {"where": h["where"], "target": h.get("target", "assertion")}, r)
             if new is not None:
